@@ -1515,6 +1515,10 @@ Hendaccess(int32 access_id)
 
     /* clear error stack and check validity of access id */
     HEclear();
+    /* only an access id may be ended here: removing the atom of another kind of id would take that
+       object away from its own interface and read it as an access record */
+    if (HAatom_group(access_id) != AIDGROUP)
+        HGOTO_ERROR(DFE_ARGS, FAIL);
     if ((access_rec = HAremove_atom(access_id)) == NULL)
         HGOTO_ERROR(DFE_ARGS, FAIL);
 
